@@ -11,6 +11,11 @@ REPR = (list(gospec.OPERATORS) + sorted(gospec.KEYWORDS) +
         ['x', '_', 'a1', 'é', '世界', 'ж9', 'iff', 'forx', 'func_', 'breakfast', 'x٣',
          '0', '42', '0x1F', '0b101', '0o17', '017', '1_000', '1.5', '.5', '1e3', '0x1p-2', '2i', '1.5e3i',
          "'a'", "'\\n'", "'世'", '"s"', '"a\\"b"', '`r`', '`r\nq`', '`héllo`', '`世\n界😀`', '"日本語"', '"é\\n😀"', "'😀'"])
+# one literal for every branch of the spec's literal productions (and their look-alikes), each a single token
+LITS = ['00', '0_7', '0_0', '08.5', '09.', '09e1', '0_8.25E-3', '089i', '08.5i', '0e0', '0.i', '1.', '1.e2', '1.E+2', '.5e-3', '.0', '0.0', '1_0.0_1',
+        '0B1', '0b_1', '0O17', '0o_7', '0X_1', '0XaB', '0x1P+3', '0x.8p1', '0X1.p-1', '0x_f.fp0', '0b1i', '0o7i', '0xfi', '0x1p0i', '1e1i', '.5i', '123456789012345678901234567890',
+        "'\\a'", "'\\''", "'\\\\'", "'\\000'", "'\\377'", "'\\x00'", "'\\xff'", "'\\u00e9'", "'\\U0010FFFF'", "'\\uD7FF'", "'\\uE000'", "'\t'", "'é'",
+        '"\\a\\b\\f\\n\\r\\t\\v\\\\\\""', '"\\101\\x41\\u0041\\U00000041"', '""', '"\t"', "\"'\"", '``', '`\\`', '`"`', "`'`", '`\r\n`', '"//"', '"/*"', '`//\n/*`']
 SEPS = [('nothing', ''), ('space', ' '), ('tab', '\t'), ('newline', '\n'), ('general', '/*c*/'), ('line', '//c\n'), ('general-mb', '/*注😀*/'), ('line-mb', '//é\n')]
 
 
@@ -51,7 +56,7 @@ def judge(chk, stream, cases, a, sigf):
 def run(chk):
     rng = random.Random(chk.seed)
     chk.rule = ('scan mode (hook H1). Stream pairs: every ordered pair of the %d representative tokens x 6 separators (exhaustive); '
-                'stream random: token sequences of 3-12 tokens with random separators. A case is non-trivial when the reference lexer '
+                'stream literal-forms: one literal for every branch of the literal productions alone, beside 18 neighbours x 3 separators, and in pairs; stream random: token sequences of 3-12 tokens with random separators. A case is non-trivial when the reference lexer '
                 'accepts it (so it is judged by the oracle) and it has >= 2 tokens; distinct by source text.' % len(REPR))
     cases = []
     for (sn, sep) in SEPS:
@@ -81,6 +86,22 @@ def run(chk):
     judged2 = judge(chk, 'random', rc, a2, sig_pair)
     chk.count('random', rc, [s for (m, s) in rc if gospec.tokens(s, insert_semicolons=False)])
     chk.extra['random_judged_by_oracle'] = judged2
+    # every literal form alone, next to every operator-like neighbour, and in pairs
+    lc = []
+    for t in LITS:
+        lc.append(('scan', t))
+        for nb in ['+', '-', '(', ')', '[', ']', '{', '}', ',', ';', '.', ':', '=', '<-', '&^', '...', 'x', 'if']:
+            for sep in ['', ' ', '\n']:
+                if nb == '.' and sep == '': continue
+                lc.append(('scan', nb + sep + t)); lc.append(('scan', t + sep + nb))
+    for t1 in LITS:
+        for t2 in LITS:
+            lc.append(('scan', t1 + ' ' + t2))
+    lc = streams.dedup(lc)
+    a4, b4 = run_both(chk, 'literal-forms', lc)
+    judged4 = judge(chk, 'literal-forms', lc, a4, sig_pair)
+    chk.count('literal-forms', lc, [s for (m, s) in lc if gospec.tokens(s, insert_semicolons=False)])
+    chk.extra['literal_forms_judged_by_oracle'] = judged4
     # snippets of real Go in the corpus
     sn = [('scan', s) for (m, s) in streams.snippet_cases()]
     sn = streams.dedup(sn)
@@ -89,5 +110,5 @@ def run(chk):
     chk.count('snippets', sn, [s for (m, s) in sn if gospec.tokens(s, insert_semicolons=False)])
     for (m, s), l in list(zip(cases, a))[1000:1003] + list(zip(rc, a2))[:2]:
         chk.sample({'mode': m, 'input': s, 'impl': l[:300]})
-    chk.programs = len(cases) + len(rc) + len(sn)
+    chk.programs = len(cases) + len(rc) + len(sn) + len(lc)
     chk.disagreements_checked = chk.programs
